@@ -330,6 +330,8 @@ def check(ctx):
             for tgt in (rdef2, path2):
                 if tgt in ctx.F.fns:
                     _callers.setdefault(tgt, set()).add(g.root or g.id)
+    for tgt, cs in (getattr(ctx.F, "pre_subst_callers", None) or {}).items():
+        _callers.setdefault(tgt, set()).update(cs)
     rtc_family = {RTC_}
     for fid, cs in _callers.items():
         if ctx.F.is_new_fn(fid) and cs and cs <= {RTC_} and not ctx.F.fns[fid].pub:
